@@ -56,7 +56,8 @@ def gen_minutes(rng):
 
 def gen_micros(rng):
     s = rng.choice([rng.randrange(-100, 90_000), 3599, 3600, 3601, 3659, 3660, 86339, 86340, 86399, 86400, 86341, 59, 60, 0,
-                    rng.randrange(3600, 86400)])
+                    rng.randrange(3600, 86400), rng.randrange(3600, 86400), rng.randrange(-3 * 86400, 4 * 86400),
+                    86400 * rng.randrange(1, 400) + rng.randrange(86400)])
     us = rng.choice([0, 0, 1, 999_999, 500_000, rng.randrange(1_000_000)])
     return s * 1_000_000 + us
 
